@@ -74,6 +74,7 @@ struct Inner {
     num_threads: usize,
     sink: Option<std::fs::File>,
     mode_t: Option<usize>,
+    alloc_preempt: bool,
     counters: BTreeMap<&'static str, u64>,
 }
 
@@ -101,6 +102,7 @@ impl Ctx {
             num_threads: 4,
             sink: None,
             mode_t: None,
+            alloc_preempt: false,
             counters: BTreeMap::new(),
         })))
     }
@@ -201,6 +203,10 @@ impl Ctx {
     }
     /// Mode T: run top-level parallel sections on this many real threads under the baton
     /// scheduler (`None` = Mode P, the default).
+    /// Mode T sections started from now on may preempt workers at allocation points.
+    pub fn set_alloc_preempt(&self, on: bool) {
+        self.0.lock().unwrap().alloc_preempt = on;
+    }
     pub fn set_mode_t(&self, workers: Option<usize>) {
         self.0.lock().unwrap().mode_t = workers;
     }
@@ -338,7 +344,12 @@ impl simhook::SimHooks for Hooks {
         self.0.event("section-threads", n as u64, w as u64);
         (self.0).0.lock().unwrap().sections += 1;
         let ctx = self.0.clone();
+        let preempt = (self.0).0.lock().unwrap().alloc_preempt;
         let chooser: simhook::baton::Chooser = Arc::new(Mutex::new(move |k: usize, kind: &'static str| {
+            // the preemption plan is drawn only where the scenario asked for it (0 = no preemption)
+            if !preempt && kind.starts_with("alloc-") {
+                return 0;
+            }
             let v = ctx.draw(Stream::S, k as u64, kind) as usize;
             ctx.event("baton", k as u64, v as u64);
             ctx.count(match kind {
@@ -349,6 +360,8 @@ impl simhook::SimHooks for Hooks {
                 "claim" => "baton-choice-at-claim",
                 "claim-item" => "baton-choice-of-item",
                 "finish" => "baton-choice-at-finish",
+                "alloc" => "baton-choice-at-allocation-point",
+                "alloc-preempt-budget" | "alloc-gap-scale" | "alloc-gap" => "baton-preemption-plan-draws",
                 _ => "baton-choice-other",
             });
             v
